@@ -217,6 +217,30 @@ Section Commit.
     if negb (h_mat (hd_of t)) then Ok (t, []) else
     let? r := spill fuel t in spill_up fuel (fst r) (snd r).
 
+  (** Bucket.inlineable: a single materialised leaf without nested buckets whose size stays within pageSize/4 *)
+  Fixpoint inl_loop (sz : N) (l : list inode) : bool :=
+    match l with
+    | [] => true
+    | x :: r => let sz' := sz + leaf_elem_size + len (i_key x) + len (i_val x) in
+                if N.odd (i_flags x) then false else if ps / 4 <? sz' then false else inl_loop sz' r
+    end.
+  Definition inlineable (t : nt) : bool := h_mat (hd_of t) && h_leaf (hd_of t) && inl_loop page_header_size (ins_of t).
+
+  (** Bucket.free: every page and every node of the tree, in forEachPageNode's pre-order *)
+  Fixpoint free_all (fuel : nat) (t : nt) : list ev :=
+    match fuel with O => [] | S f => free_ev t ++ flat_map (free_all f) (kids_of t) end.
+
+  (** the parent bucket's spill decides per child bucket: small enough -> freed and written inline into the parent's leaf
+      (the tree becomes one unpaged leaf), otherwise spilled *)
+  Definition commit_bucket (fuel : nat) (t : nt) (order : list N) : res (nt * list ev * bool) :=
+    if negb (h_mat (hd_of t)) then Ok (t, [], h_pgid (hd_of t) =? 0) else    (* no materialised root: the bucket is not written *)
+    let? r := rebalance_all fuel t order in
+    if inlineable (fst r) then
+      Ok (NT {| h_mat := false; h_unbal := false; h_pgid := 0; h_ov := 0; h_key := []; h_leaf := true |} (ins_of (fst r)) [],
+          snd r ++ (if h_pgid (hd_of (fst r)) =? 0 then [] else free_all fuel (fst r)), true)
+    else
+      let? s := spill_root fuel (fst r) in Ok (fst s, snd r ++ snd s, false).
+
   (** Tx.Commit on this bucket's tree: rebalance (visits in [order]), then spill *)
   Definition commit_tree (fuel : nat) (t : nt) (order : list N) : res (nt * list ev) :=
     let? r := rebalance_all fuel t order in
